@@ -7,9 +7,13 @@ mutable Python objects are heap locations, `copyRoot` is `copy()` = `copy.copy` 
 `__copy__ = copy` and `__deepcopy__` return `self.copy()`: one function, three routes), `newInst` is the `__init__`
 chain, `run` applies a history of in-place mutations reached from one root.
 
-All statements are for every heap, every class table, every fuel-free history length.  `fix = false` is the code
-as it is; `fix = true` is the candidate patch (instance attributes `endogenous` / `check` get copies of the
-class-level lists).
+All statements are for every heap, every class table, every history length.
+
+History: before /repo commits b2c7af0 and cba9d09 the instance attributes `endogenous` / `check` were the
+class-level lists themselves and `Trace.names` was the class-level `TRACE_VARIABLES` list, so the sibling /
+instance-vs-class statements below were false of the code (`m.check.append('X')` changed `Model.CHECK`,
+`Model.ENDOGENOUS` and every sibling) and `trace_t` was not a local step.  The model follows the code as it is now:
+the constructors store `list(self.ENDOGENOUS)` / `list(self.CHECK)` and `trace_t` stores `list(names)`.
 -/
 set_option linter.unusedSimpArgs false
 set_option linter.unusedVariables false
@@ -25,8 +29,8 @@ def exHeap : Heap :=
   [strList ["Y", "C"], strList ["Y", "C", "G"],
    ⟨.cls, [("ENDOGENOUS", .ref 0), ("CHECK", .ref 0), ("NAMES", .ref 1), ("TRACE_VARIABLES", .imm .none)]⟩]
 def exCls : ClassDesc := ⟨.model, false, true, 2⟩
-def exA := newInst false 0 exCls exHeap (.imm (.range 2)) (.imm .none)
-def exB := newInst false 0 exCls exA.1 (.imm (.range 2)) (.imm .none)
+def exA := newInst 0 exCls exHeap (.imm (.range 2)) (.imm .none)
+def exB := newInst 0 exCls exA.1 (.imm (.range 2)) (.imm .none)
 /-- `a.trace_t(1, 'start', trace=True)` then `a.add_variable('Q', 0.0)`. -/
 def exHist : List Step :=
   opSteps (.traceT 1 .own true (.str "start") 3) ++ opSteps (.addVariable "Q" 2 true)
@@ -36,8 +40,8 @@ def exH : Heap := run exB.1 exA.2 exHist
 
 /-- **copy_fresh.**  After `c = a.copy()` (any of the three routes) no mutable object is reachable from both `a`
     and `c`; the heap `a` lives in is untouched (only new objects were allocated). -/
-theorem copy_fresh {fix : Bool} {cs : List ClassDesc} {h h1 : Heap} {a c : Nat} (W : WorldOK cs h)
-    (ha : a < h.length) (hc : copyRoot fix cs h a = some (h1, c)) :
+theorem copy_fresh {cs : List ClassDesc} {h h1 : Heap} {a c : Nat} (W : WorldOK cs h)
+    (ha : a < h.length) (hc : copyRoot cs h a = some (h1, c)) :
     Disjoint h1 a c ∧ (∀ x, x < h.length → h1[x]? = h[x]?) ∧ WF h1 ∧ a < h1.length ∧ c < h1.length := by
   obtain ⟨e, wf1, hc1, fresh⟩ := copyRoot_new W ha hc
   refine ⟨?_, fun x hx => e.get hx, wf1, by have := e.len; omega, hc1⟩
@@ -48,13 +52,13 @@ theorem copy_fresh {fix : Bool} {cs : List ClassDesc} {h h1 : Heap} {a c : Nat} 
 
 /-- **copy_observationally_equal.**  The copy is bisimilar to the original: same kind of object, same keys, equal
     immutable values, and (recursively) bisimilar referents — i.e. equal up to object identity. -/
-theorem copy_observationally_equal {fix : Bool} {cs : List ClassDesc} {h h1 : Heap} {a c : Nat}
-    (W : WorldOK2 cs h) (ha : a < h.length) (hc : copyRoot fix cs h a = some (h1, c)) : ObsEq h1 a c :=
+theorem copy_observationally_equal {cs : List ClassDesc} {h h1 : Heap} {a c : Nat}
+    (W : WorldOK2 cs h) (ha : a < h.length) (hc : copyRoot cs h a = some (h1, c)) : ObsEq h1 a c :=
   copyRoot_obsEq W ha hc
 
 /-- The copy has the same class as the original. -/
-theorem copy_same_class {fix : Bool} {cs : List ClassDesc} {h h1 : Heap} {a c : Nat}
-    (W : WorldOK2 cs h) (ha : a < h.length) (hc : copyRoot fix cs h a = some (h1, c)) :
+theorem copy_same_class {cs : List ClassDesc} {h h1 : Heap} {a c : Nat}
+    (W : WorldOK2 cs h) (ha : a < h.length) (hc : copyRoot cs h a = some (h1, c)) :
     ∃ o o', h1[a]? = some o ∧ h1[c]? = some o' ∧ o.kind = o'.kind := by
   obtain ⟨R, hR, hac⟩ := copyRoot_obsEq W ha hc
   obtain ⟨o, o', h1', h2, h3, _⟩ := hR a c hac
@@ -63,21 +67,21 @@ theorem copy_same_class {fix : Bool} {cs : List ClassDesc} {h h1 : Heap} {a c : 
 -- the hypotheses hold of the example world, and the copy exists
 example : WorldOK2 [exCls] exH := worldOK2_of_check (by decide)
 example : exA.2 < exH.length := by decide
-example : (copyRoot false [exCls] exH exA.2).isSome = true := by decide
+example : (copyRoot [exCls] exH exA.2).isSome = true := by decide
 
 /-! ## Frame: disjoint roots do not observe each other -/
 
-/-- **disjoint_frame.**  If two roots have disjoint mutable reach, then after *any* history of (local) mutations
+/-- **disjoint_frame.**  If two roots have disjoint mutable reach, then after *any* history of mutations
     through the first, every object reachable from the second is unchanged, so is what is reachable from it, every
     observation (`view`, to any depth) and its sharing graph (`paths`); and the two roots are still disjoint. -/
 theorem disjoint_frame {h : Heap} {r1 r2 : Nat} (wf : WF h) (h1 : r1 < h.length) (h2 : r2 < h.length)
-    (dj : Disjoint h r1 r2) (steps : List Step) (hloc : ∀ s, s ∈ steps → s.isLocal = true) :
+    (dj : Disjoint h r1 r2) (steps : List Step) :
     (∀ x, Reach h r2 x → (run h r1 steps)[x]? = h[x]?) ∧
     (∀ x, Reach (run h r1 steps) r2 x ↔ Reach h r2 x) ∧
     (∀ n, view (run h r1 steps) n (.ref r2) = view h n (.ref r2)) ∧
     (∀ n p, paths (run h r1 steps) n p (.ref r2) = paths h n p (.ref r2)) ∧
     Disjoint (run h r1 steps) r1 r2 ∧ WF (run h r1 steps) := by
-  have F := framed_run steps h wf h1 h2 dj hloc
+  have F := framed_run steps h wf h1 h2 dj
   exact ⟨F.same, fun x => ⟨reach_of_same' F.same, reach_of_same F.same⟩,
     fun n => view_of_same n r2 F.same, fun n p => paths_of_same n p r2 F.same, F.disj, F.wf⟩
 
@@ -104,169 +108,102 @@ theorem runOps_eq_run (r : Nat) : ∀ (ops : List Op) (h : Heap), runOps h r ops
     exact ih _
 
 /-- The frame property for histories of the public mutating operations (values, `add_variable`, `add_attribute`,
-    list mutations, aliases, lags / leads, traces, the same through nested submodels), whenever their steps are
-    local — every operation except `trace_t` with a *class-level* `TRACE_VARIABLES` list. -/
+    list mutations, aliases, lags / leads, traces — with any source of the trace names —, the same through nested
+    submodels). -/
 theorem disjoint_frame_ops {h : Heap} {r1 r2 : Nat} (wf : WF h) (h1 : r1 < h.length) (h2 : r2 < h.length)
-    (dj : Disjoint h r1 r2) (ops : List Op) (hloc : ∀ op, op ∈ ops → stepsLocal (opSteps op) = true) :
+    (dj : Disjoint h r1 r2) (ops : List Op) :
     (∀ n, view (runOps h r1 ops) n (.ref r2) = view h n (.ref r2)) ∧
     (∀ n p, paths (runOps h r1 ops) n p (.ref r2) = paths h n p (.ref r2)) ∧
     Disjoint (runOps h r1 ops) r1 r2 := by
   rw [runOps_eq_run]
-  have hl : ∀ s, s ∈ ops.flatMap opSteps → s.isLocal = true := by
-    intro s hs
-    obtain ⟨op, hop, hs'⟩ := List.mem_flatMap.mp hs
-    exact stepsLocal_sound (hloc op hop) s hs'
-  have F := disjoint_frame wf h1 h2 dj _ hl
+  have F := disjoint_frame wf h1 h2 dj (ops.flatMap opSteps)
   exact ⟨F.2.2.1, F.2.2.2.1, F.2.2.2.2.1⟩
 
 /-- **Independence of a copy**, both directions: whatever is done to the copy afterwards is invisible through the
     original, and whatever is done to the original is invisible through the copy. -/
-theorem copy_independent {fix : Bool} {cs : List ClassDesc} {h h1 : Heap} {a c : Nat} (W : WorldOK cs h)
-    (ha : a < h.length) (hc : copyRoot fix cs h a = some (h1, c)) (steps : List Step)
-    (hloc : ∀ s, s ∈ steps → s.isLocal = true) :
+theorem copy_independent {cs : List ClassDesc} {h h1 : Heap} {a c : Nat} (W : WorldOK cs h)
+    (ha : a < h.length) (hc : copyRoot cs h a = some (h1, c)) (steps : List Step) :
     (∀ n, view (run h1 c steps) n (.ref a) = view h1 n (.ref a)) ∧
     (∀ n, view (run h1 a steps) n (.ref c) = view h1 n (.ref c)) := by
   obtain ⟨dj, _, wf1, ha1, hc1⟩ := copy_fresh W ha hc
-  exact ⟨(disjoint_frame wf1 hc1 ha1 (disjoint_symm dj) steps hloc).2.2.1,
-    (disjoint_frame wf1 ha1 hc1 dj steps hloc).2.2.1⟩
+  exact ⟨(disjoint_frame wf1 hc1 ha1 (disjoint_symm dj) steps).2.2.1,
+    (disjoint_frame wf1 ha1 hc1 dj steps).2.2.1⟩
 
--- non-vacuity: the example history is local and changes what is seen through `a`, not what is seen through the copy
-example : stepsLocal exHist = true := by decide
+-- non-vacuity: the example history changes what is seen through `a`
 example : view exH 2 (.ref exA.2) ≠ view exB.1 2 (.ref exA.2) := by decide
 
-/-! ## Sibling instances and the class
+/-! ## Sibling instances and the class -/
 
-FULL statements (what the property says):
+/-- **siblings_disjoint.**  Two instances of one class (constructor arguments immutable, i.e. not shared by the
+    caller) share no mutable object. -/
+theorem siblings_disjoint (ci : Nat) (cd : ClassDesc) (h : Heap) (i1 i2 j1 j2 : Imm) (wf : WF h) (ok : ClassOK h cd) :
+    Disjoint (newInst ci cd (newInst ci cd h (.imm i1) (.imm j1)).1 (.imm i2) (.imm j2)).1
+      (newInst ci cd h (.imm i1) (.imm j1)).2
+      (newInst ci cd (newInst ci cd h (.imm i1) (.imm j1)).1 (.imm i2) (.imm j2)).2 :=
+  fun x ra rb => siblings_shared wf ok ⟨i1, rfl⟩ ⟨j1, rfl⟩ ⟨i2, rfl⟩ ⟨j2, rfl⟩ x ra rb
 
-    siblings_disjoint       : two instances of one class share no mutable object
-    instance_class_disjoint : an instance shares no mutable object with its class
+/-- **instance_class_disjoint.**  An instance shares no mutable object with its class (the pseudo-object holding
+    `ENDOGENOUS`, `CHECK`, `NAMES`, `ALIASES`, `TRACE_VARIABLES`, …). -/
+theorem instance_class_disjoint (ci : Nat) (cd : ClassDesc) (h : Heap) (i1 j1 : Imm) (wf : WF h) (ok : ClassOK h cd) :
+    Disjoint (newInst ci cd h (.imm i1) (.imm j1)).1 (newInst ci cd h (.imm i1) (.imm j1)).2 cd.attrs :=
+  fun x ra rc => instance_class_shared wf ok ⟨i1, rfl⟩ ⟨j1, rfl⟩ x ra rc
 
-Both are **false of the code as it is** (`fix = false`) for models and linkers:
-`add_attribute('endogenous', self.ENDOGENOUS)` / `add_attribute('check', self.CHECK)` store the class-level lists
-themselves.  The model reproduces it; below: the negation (for every class with an `ENDOGENOUS` list, and at the
-concrete witness `a.check.append('X')`), the statements under the exact guard, the exact extent of the sharing, and
-the full statements for the candidate patch. -/
+/-- Hence: whatever is done to one sibling — any history of public operations, including list mutations of
+    `check` / `endogenous` and tracing — is invisible through the other sibling and through the class. -/
+theorem sibling_history_invisible (ci : Nat) (cd : ClassDesc) (h : Heap) (i1 i2 j1 j2 : Imm) (wf : WF h)
+    (ok : ClassOK h cd) (ops : List Op) :
+    (∀ n, view (runOps (newInst ci cd (newInst ci cd h (.imm i1) (.imm j1)).1 (.imm i2) (.imm j2)).1
+        (newInst ci cd h (.imm i1) (.imm j1)).2 ops) n
+        (.ref (newInst ci cd (newInst ci cd h (.imm i1) (.imm j1)).1 (.imm i2) (.imm j2)).2) =
+      view (newInst ci cd (newInst ci cd h (.imm i1) (.imm j1)).1 (.imm i2) (.imm j2)).1 n
+        (.ref (newInst ci cd (newInst ci cd h (.imm i1) (.imm j1)).1 (.imm i2) (.imm j2)).2)) := by
+  obtain ⟨eA, wfA, _, hiA, _⟩ := reach_newInst (ci := ci) (span := .imm i1) (sub := .imm j1) wf ok ⟨i1, rfl⟩ ⟨j1, rfl⟩
+  obtain ⟨eB, wfB, _, hiB, _⟩ := reach_newInst (ci := ci) (span := .imm i2) (sub := .imm j2) wfA (ok.ext wf eA)
+    ⟨i2, rfl⟩ ⟨j2, rfl⟩
+  exact (disjoint_frame_ops wfB (by have := eB.len; omega) hiB (siblings_disjoint ci cd h i1 i2 j1 j2 wf ok) ops).1
 
-/-- The full statement, as a proposition about the constructor with / without the candidate patch. -/
-def SiblingsDisjoint (fix : Bool) : Prop :=
-  ∀ (ci : Nat) (cd : ClassDesc) (h : Heap) (i1 i2 j1 j2 : Imm), WF h → ClassOK h cd →
-    Disjoint (newInst fix ci cd (newInst fix ci cd h (.imm i1) (.imm j1)).1 (.imm i2) (.imm j2)).1
-      (newInst fix ci cd h (.imm i1) (.imm j1)).2
-      (newInst fix ci cd (newInst fix ci cd h (.imm i1) (.imm j1)).1 (.imm i2) (.imm j2)).2
+theorem class_invisible_to_instance_history (ci : Nat) (cd : ClassDesc) (h : Heap) (i1 j1 : Imm) (wf : WF h)
+    (ok : ClassOK h cd) (ops : List Op) :
+    ∀ n, view (runOps (newInst ci cd h (.imm i1) (.imm j1)).1 (newInst ci cd h (.imm i1) (.imm j1)).2 ops) n
+        (.ref cd.attrs) = view (newInst ci cd h (.imm i1) (.imm j1)).1 n (.ref cd.attrs) := by
+  obtain ⟨eA, wfA, _, hiA, _⟩ := reach_newInst (ci := ci) (span := .imm i1) (sub := .imm j1) wf ok ⟨i1, rfl⟩ ⟨j1, rfl⟩
+  exact (disjoint_frame_ops wfA hiA (by have := eA.len; have := ok.valid; omega)
+    (instance_class_disjoint ci cd h i1 j1 wf ok) ops).1
 
-def InstanceClassDisjoint (fix : Bool) : Prop :=
-  ∀ (ci : Nat) (cd : ClassDesc) (h : Heap) (i1 j1 : Imm), WF h → ClassOK h cd →
-    Disjoint (newInst fix ci cd h (.imm i1) (.imm j1)).1 (newInst fix ci cd h (.imm i1) (.imm j1)).2 cd.attrs
+/-- **trace_t is a local step** — also with a class-level `TRACE_VARIABLES` list (`Trace(list(names))`): after any
+    history of public operations through a root, everything reachable from the root was reachable before or is
+    new; in particular a class-level list that was not reachable from the instance is still not reachable. -/
+theorem ops_local {h : Heap} {root : Nat} (wf : WF h) (hr : root < h.length) (ops : List Op) (x : Nat)
+    (rx : Reach (runOps h root ops) root x) : Reach h root x ∨ h.length ≤ x := by
+  rw [runOps_eq_run] at rx
+  exact (run_local _ h wf hr).reach x rx
 
-/-- The exact extent of the sharing: two siblings share *at most* the class-level lists `ENDOGENOUS` / `CHECK`,
-    and only for models / linkers of the unpatched code. -/
-theorem siblings_share_only_class_lists {fix : Bool} {ci : Nat} {cd : ClassDesc} {h : Heap} {i1 i2 j1 j2 : Imm}
-    (wf : WF h) (ok : ClassOK h cd) (x : Nat)
-    (ra : Reach (newInst fix ci cd (newInst fix ci cd h (.imm i1) (.imm j1)).1 (.imm i2) (.imm j2)).1
-      (newInst fix ci cd h (.imm i1) (.imm j1)).2 x)
-    (rb : Reach (newInst fix ci cd (newInst fix ci cd h (.imm i1) (.imm j1)).1 (.imm i2) (.imm j2)).1
-      (newInst fix ci cd (newInst fix ci cd h (.imm i1) (.imm j1)).1 (.imm i2) (.imm j2)).2 x) :
-    fix = false ∧ cd.base ≠ .container ∧
-      (classAttr h cd "ENDOGENOUS" = .ref x ∨ classAttr h cd "CHECK" = .ref x) :=
-  siblings_shared wf ok ⟨i1, rfl⟩ ⟨j1, rfl⟩ ⟨i2, rfl⟩ ⟨j2, rfl⟩ x ra rb
+theorem trace_t_local {h : Heap} {root l : Nat} (wf : WF h) (hr : root < h.length) (hl : l < h.length)
+    (t : Nat) (fresh : Bool) (label : Imm) (n : Nat) (hn : ¬ Reach h root l) :
+    ¬ Reach (applyOp h root (.traceT t (.classVars l) fresh label n)) root l := by
+  intro r
+  rcases (run_local (opSteps (.traceT t (.classVars l) fresh label n)) h wf hr).reach l r with h1 | h1
+  · exact hn h1
+  · omega
 
-/-- **siblings_disjoint_partial** — under the exact guard: plain containers (no class-level lists are referenced),
-    or the patched constructor. -/
-theorem siblings_disjoint_partial {fix : Bool} {ci : Nat} {cd : ClassDesc} {h : Heap} {i1 i2 j1 j2 : Imm}
-    (wf : WF h) (ok : ClassOK h cd) (guard : cd.base = .container ∨ fix = true) :
-    Disjoint (newInst fix ci cd (newInst fix ci cd h (.imm i1) (.imm j1)).1 (.imm i2) (.imm j2)).1
-      (newInst fix ci cd h (.imm i1) (.imm j1)).2
-      (newInst fix ci cd (newInst fix ci cd h (.imm i1) (.imm j1)).1 (.imm i2) (.imm j2)).2 := by
-  intro x ra rb
-  obtain ⟨hf, hc, _⟩ := siblings_share_only_class_lists wf ok x ra rb
-  rcases guard with g | g
-  · exact hc g
-  · rw [hf] at g; cases g
-
-/-- With the candidate patch the full statement is a theorem. -/
-theorem siblings_disjoint_patched : SiblingsDisjoint true :=
-  fun ci cd h i1 i2 j1 j2 wf ok => siblings_disjoint_partial wf ok (Or.inr rfl)
-
-/-- Negation for *every* model / linker class that has an `ENDOGENOUS` list: the siblings both reach it. -/
-theorem siblings_share_endogenous {ci : Nat} {cd : ClassDesc} {h : Heap} {i1 i2 j1 j2 : Imm} (wf : WF h)
-    (ok : ClassOK h cd) (hc : cd.base ≠ .container) {e : Nat} (he : classAttr h cd "ENDOGENOUS" = .ref e) :
-    ¬ Disjoint (newInst false ci cd (newInst false ci cd h (.imm i1) (.imm j1)).1 (.imm i2) (.imm j2)).1
-      (newInst false ci cd h (.imm i1) (.imm j1)).2
-      (newInst false ci cd (newInst false ci cd h (.imm i1) (.imm j1)).1 (.imm i2) (.imm j2)).2 := by
-  intro dj
-  obtain ⟨eA, wfA, _, hiA, _⟩ := reach_newInst (fix := false) (ci := ci) (span := .imm i1) (sub := .imm j1) wf ok
-    ⟨i1, rfl⟩ ⟨j1, rfl⟩
-  obtain ⟨eB, _, _, _, _⟩ := reach_newInst (fix := false) (ci := ci) (span := .imm i2) (sub := .imm j2) wfA
-    (ok.ext wf eA) ⟨i2, rfl⟩ ⟨j2, rfl⟩
-  have ra := newInst_reaches_endogenous (ci := ci) (span := .imm i1) (sub := .imm j1) hc he
-  have rb := newInst_reaches_endogenous (ci := ci) (span := .imm i2) (sub := .imm j2)
-    (h := (newInst false ci cd h (.imm i1) (.imm j1)).1) hc (by rw [classAttr_ext wf eA ok]; exact he)
-  exact dj e ((reach_ext_iff wfA eB hiA e).mpr ra) rb
-
-/-- **siblings_disjoint_false_at_witness.** -/
-theorem siblings_disjoint_false_at_witness : ¬ SiblingsDisjoint false := by
-  intro full
-  exact siblings_share_endogenous (ci := 0) (cd := exCls) (h := exHeap) (i1 := .range 2) (i2 := .range 2)
-    (j1 := .none) (j2 := .none) (wf_of_check (by decide)) (classOK_of_check (by decide)) (by decide) (e := 0)
-    (by decide) (full 0 exCls exHeap (.range 2) (.range 2) .none .none (wf_of_check (by decide))
-      (classOK_of_check (by decide)))
-
-/-- The witness as behaviour: `a.check.append('X')` changes `Model.CHECK`, `Model.ENDOGENOUS`, and `b.check` /
-    `b.endogenous` of the sibling `b`. -/
-theorem check_append_visible_at_witness :
-    valItems (applyOp exB.1 exA.2 (.append ["check"] "X")) (classAttr exB.1 exCls "CHECK") = ["Y", "C", "X"] ∧
-    valItems (applyOp exB.1 exA.2 (.append ["check"] "X")) (classAttr exB.1 exCls "ENDOGENOUS") = ["Y", "C", "X"] ∧
-    (nav (applyOp exB.1 exA.2 (.append ["check"] "X")) exB.2 ["endogenous"]).map
-      (fun l => valItems (applyOp exB.1 exA.2 (.append ["check"] "X")) (.ref l)) = some ["Y", "C", "X"] ∧
-    valItems exB.1 (classAttr exB.1 exCls "CHECK") = ["Y", "C"] := by
+-- non-vacuity: a tracer class with a class-level TRACE_VARIABLES list (location 2); tracing through `a` creates a
+-- Trace whose names are ['Y'] and the class list is not reachable from `a`
+def exHeap2 : Heap :=
+  [strList ["Y", "C"], strList ["Y", "C", "G"], strList ["Y"],
+   ⟨.cls, [("ENDOGENOUS", .ref 0), ("CHECK", .ref 0), ("NAMES", .ref 1), ("TRACE_VARIABLES", .ref 2)]⟩]
+def exCls2 : ClassDesc := ⟨.model, false, true, 3⟩
+def exA2 := newInst 0 exCls2 exHeap2 (.imm (.range 2)) (.imm .none)
+def exT2 : Heap := applyOp exA2.1 exA2.2 (.traceT 1 (.classVars 2) true (.str "start") 1)
+example : wfB exHeap2 = true ∧ classOKB exHeap2 exCls2 = true := by decide
+example : (nav exT2 exA2.2 ["_trace", "1", "names"]).map (fun l => valItems exT2 (.ref l)) = some ["Y"] := by decide
+example : (nav exT2 exA2.2 ["_trace", "1", "names"]) ≠ some 2 := by decide
+-- the siblings of the example world: `a.check.append('X')` is seen through `a` only
+example : (nav (applyOp exB.1 exA.2 (.append ["check"] "X")) exA.2 ["check"]).map
+    (fun l => valItems (applyOp exB.1 exA.2 (.append ["check"] "X")) (.ref l)) = some ["Y", "C", "X"] := by decide
+example : (nav (applyOp exB.1 exA.2 (.append ["check"] "X")) exB.2 ["check"]).map
+    (fun l => valItems (applyOp exB.1 exA.2 (.append ["check"] "X")) (.ref l)) = some ["Y", "C"] := by decide
+example : valItems (applyOp exB.1 exA.2 (.append ["check"] "X")) (classAttr exB.1 exCls "CHECK") = ["Y", "C"] := by
   decide
-
-theorem instance_class_share_only_class_lists {fix : Bool} {ci : Nat} {cd : ClassDesc} {h : Heap} {i1 j1 : Imm}
-    (wf : WF h) (ok : ClassOK h cd) (x : Nat)
-    (ra : Reach (newInst fix ci cd h (.imm i1) (.imm j1)).1 (newInst fix ci cd h (.imm i1) (.imm j1)).2 x)
-    (rc : Reach (newInst fix ci cd h (.imm i1) (.imm j1)).1 cd.attrs x) :
-    fix = false ∧ cd.base ≠ .container ∧
-      (classAttr h cd "ENDOGENOUS" = .ref x ∨ classAttr h cd "CHECK" = .ref x) :=
-  instance_class_shared wf ok ⟨i1, rfl⟩ ⟨j1, rfl⟩ x ra rc
-
-/-- **instance_class_disjoint_partial** — under the exact guard. -/
-theorem instance_class_disjoint_partial {fix : Bool} {ci : Nat} {cd : ClassDesc} {h : Heap} {i1 j1 : Imm}
-    (wf : WF h) (ok : ClassOK h cd) (guard : cd.base = .container ∨ fix = true) :
-    Disjoint (newInst fix ci cd h (.imm i1) (.imm j1)).1 (newInst fix ci cd h (.imm i1) (.imm j1)).2 cd.attrs := by
-  intro x ra rc
-  obtain ⟨hf, hc, _⟩ := instance_class_share_only_class_lists wf ok x ra rc
-  rcases guard with g | g
-  · exact hc g
-  · rw [hf] at g; cases g
-
-theorem instance_class_disjoint_patched : InstanceClassDisjoint true :=
-  fun ci cd h i1 j1 wf ok => instance_class_disjoint_partial wf ok (Or.inr rfl)
-
-/-- **instance_class_disjoint_false_at_witness.** -/
-theorem instance_class_disjoint_false_at_witness : ¬ InstanceClassDisjoint false := by
-  intro full
-  have wf : WF exHeap := wf_of_check (by decide)
-  have ok : ClassOK exHeap exCls := classOK_of_check (by decide)
-  have dj := full 0 exCls exHeap (.range 2) .none wf ok
-  obtain ⟨eA, _, _, _, _⟩ := reach_newInst (fix := false) (ci := 0) (span := .imm (.range 2)) (sub := .imm .none)
-    wf ok ⟨_, rfl⟩ ⟨_, rfl⟩
-  have ra := newInst_reaches_endogenous (ci := 0) (cd := exCls) (h := exHeap) (span := .imm (.range 2))
-    (sub := .imm .none) (by decide) (e := 0) (by decide)
-  have rc : Reach exHeap exCls.attrs 0 :=
-    Reach.single (h := exHeap) (a := 2) (k := "ENDOGENOUS")
-      (o := ⟨.cls, [("ENDOGENOUS", .ref 0), ("CHECK", .ref 0), ("NAMES", .ref 1), ("TRACE_VARIABLES", .imm .none)]⟩)
-      (by decide) (by decide)
-  exact dj 0 ra ((reach_ext_iff wf eA (by decide) 0).mpr rc)
-
-/-- `trace_t` with a class-level `TRACE_VARIABLES` list is *not* a local step: the new `Trace` keeps a reference
-    to the class-level list (`names = self.TRACE_VARIABLES`), so the frame theorem does not cover it. -/
-theorem traceT_classVars_not_local (t : Nat) (l : Nat) (label : Imm) (n : Nat) :
-    stepsLocal (opSteps (.traceT t (.classVars l) true label n)) = false := by
-  simp [stepsLocal, opSteps, Step.isLocal, srcsLocal]
-
--- non-vacuity of the guarded statements: the example class meets `WF` / `ClassOK`, and the container version of it
--- meets the guard
 example : wfB exHeap = true ∧ classOKB exHeap exCls = true := by decide
-example : (⟨.container, false, false, 2⟩ : ClassDesc).base = .container := rfl
 
 end Fsic.C11
